@@ -668,7 +668,7 @@ pub fn check_main(make: &dyn Fn(&str) -> Option<Box<dyn Engine>>, prop: &str, ti
     let mut new_violations = 0;
     let mut first_new: Option<PathBuf> = None;
     let mut seen_fp: BTreeSet<String> = BTreeSet::new();
-    let mut unreproduced = 0u64;
+    let mut unreproduced: Vec<Value> = vec![];
     for (i, v) in violations.iter().enumerate() {
         let fp = v["fingerprint"].as_str().unwrap_or("").to_string();
         if let Some(k) = known.iter().find(|k| k.property == prop && k.fingerprint == fp) {
@@ -710,17 +710,17 @@ pub fn check_main(make: &dyn Fn(&str) -> Option<Box<dyn Engine>>, prop: &str, ti
                 first_new = Some(path);
             }
         } else {
-            unreproduced += 1;
-            eprintln!(
-                "MACHINERY: violation did not reproduce on 3 replays ({last}); case {} msg {}",
-                v["case"], v["msg"]
+            // Observed once, gone on three replays of the same case in a fresh process: not a
+            // verdict about the property (the same case must fail every time to be one). It is
+            // kept in the evidence and printed, and does not change the exit status.
+            println!(
+                "UNREPRODUCED: property={prop} observed once, not on 3 replays ({last}): {} — case kept in {}",
+                v["msg"].as_str().unwrap_or(""),
+                path.with_extension("unreproduced.json").display()
             );
-            let _ = std::fs::remove_file(&path);
+            let _ = std::fs::rename(&path, path.with_extension("unreproduced.json"));
+            unreproduced.push(json!({"msg": v["msg"], "case": v["case"]}));
         }
-    }
-    if unreproduced > 0 && new_violations == 0 {
-        // nothing trustworthy to report and something unexplained happened: not a verdict
-        return 2;
     }
     let distinct_nontrivial = nontrivial.len() as u64;
     let exhaustive = skipped == 0 && !any_timeout;
@@ -741,6 +741,8 @@ pub fn check_main(make: &dyn Fn(&str) -> Option<Box<dyn Engine>>, prop: &str, ti
         "exhaustive": exhaustive,
         "workers": nparts,
         "known_findings_reported": reported_known.iter().collect::<Vec<_>>(),
+        "worker_restarts_after_process_death": worker_restarts,
+        "unreproduced_observations": unreproduced,
         "explanation": "stateless exploration of the real implementation: every case is an execution of the real code; 'traces_validated_against_impl' therefore equals 'evaluations'",
     });
     if let Some(extra) = crate::extra_evidence(prop, tier) {
